@@ -196,6 +196,9 @@ def run(ctx):
         # mp=2 with one layer pair per stage: some model coordinate hosts no inverse worker
         dict(pp=2, dp=1, mp=2, blocks=1, ops=['f1', 's', 'l1', 'f1', 's']),
         dict(pp=1, dp=2, mp=2, blocks=1, ops=['f1', 's', 'l0', 'f1', 's'], ius=1),
+        # more model coordinates than layers: two model coordinates host no inverse worker at all, in memory
+        dict(pp=1, dp=1, mp=4, blocks=1, ops=['f1', 's', 'l1', 'f1', 's'], ckpt_dir=None),
+        dict(pp=1, dp=2, mp=4, blocks=1, ops=['f1', 's', 'v', 'f1', 's'], ckpt_dir=None),
     ]
     for i in range(n):
         if i < len(corpus):
